@@ -196,6 +196,20 @@ func (run *FuncRun) doReturn(st *State, in *ssa.Return) {
 // checkPost generates the postcondition and frame obligations at a return.
 func (run *FuncRun) checkPost(st *State, res Val, in *ssa.Return) {
 	fc := run.contract
+	if run.fn.Synthetic == "package initializer" {
+		// a package initialiser establishes the package's global invariants
+		pkg := run.eng.pkgOfFunc(run.fn)
+		for _, gi := range run.eng.ginvs {
+			if gi.Pkg != pkg {
+				continue
+			}
+			env := run.contractEnv(st, run.entry, nil)
+			env.pkg = gi.Pkg
+			goals := env.proveGoals(gi.Expr)
+			run.addGoals(st, "post", "ginv."+gi.Name, goals, gi.Src, gi.Where)
+		}
+		return
+	}
 	if fc == nil {
 		return
 	}
